@@ -7,7 +7,7 @@ use serde_json::{json, Value};
 use simcore::*;
 use std::collections::BTreeSet;
 
-const MODES: [&str; 10] = ["heading", "no-heading", "context-heading", "count", "files-with-matches", "files-without-match", "json", "files", "quiet", "sorted"];
+const MODES: [&str; 11] = ["heading", "no-heading", "context-heading", "context-no-heading", "count", "files-with-matches", "files-without-match", "json", "files", "quiet", "sorted"];
 
 #[derive(Clone, Debug)]
 pub struct Workload {
@@ -21,6 +21,9 @@ pub struct Workload {
     /// Files named explicitly on the command line (relative paths outside "w/"),
     /// in addition to the traversed directory.
     pub explicit: Vec<String>,
+    /// Route files matching f1*.txt through a (scripted, `cat`-like)
+    /// preprocessor: another code path inside the workers, same results.
+    pub pre: bool,
 }
 
 pub fn gen_workload(sub: u64) -> Workload {
@@ -68,7 +71,8 @@ pub fn gen_workload(sub: u64) -> Workload {
         None
     };
     let (open_fault, read_fault) = if explicit.is_empty() { (open_fault, read_fault) } else { (None, None) };
-    Workload { corpus, mode, threads, open_fault, read_fault, explicit }
+    let pre = rng.chance(1, 6) && mode != "files";
+    Workload { corpus, mode, threads, open_fault, read_fault, explicit, pre }
 }
 
 fn args_for(w: &Workload, threads: usize) -> Vec<String> {
@@ -77,6 +81,7 @@ fn args_for(w: &Workload, threads: usize) -> Vec<String> {
         "heading" => a.extend(["--heading".into(), "-n".into()]),
         "no-heading" => a.extend(["--no-heading".into(), "-n".into()]),
         "context-heading" => a.extend(["--heading".into(), "-n".into(), "-C1".into()]),
+        "context-no-heading" => a.extend(["--no-heading".into(), "-n".into(), "-C1".into()]),
         "count" => a.push("-c".into()),
         "files-with-matches" => a.push("-l".into()),
         "files-without-match" => a.push("--files-without-match".into()),
@@ -88,6 +93,9 @@ fn args_for(w: &Workload, threads: usize) -> Vec<String> {
     }
     if w.read_fault.is_some() {
         a.push("--no-mmap".into());
+    }
+    if w.pre {
+        a.extend(["--pre".into(), STUB.into(), "--pre-glob".into(), "f1*.txt".into()]);
     }
     if w.mode != "files" {
         a.push("foo".into());
@@ -161,6 +169,48 @@ pub fn blocks_tolerating(mode: &str, out: &[u8], failed: Option<&str>) -> Result
                 if !seen.insert(head.clone()) {
                     return Err(format!("file reported in two blocks: {}", show(&head)));
                 }
+            }
+            Ok(v)
+        }
+        "context-no-heading" => {
+            // "path:N:text" / "path-N-text" lines; "--" separates groups within
+            // a file and files from each other. Structure: no separator first or
+            // last, never two in a row; per-file blocks keep their inner separators.
+            let ls = lines(out);
+            if ls.first().map_or(false, |l| *l == b"--") || ls.last().map_or(false, |l| *l == b"--") {
+                return Err("context separator at the start or end of the output".into());
+            }
+            let mut v: Vec<Vec<u8>> = vec![];
+            let mut cur_path: Option<Vec<u8>> = None;
+            let mut seen = BTreeSet::new();
+            let mut pending_sep = false;
+            for l in ls {
+                if l == b"--" {
+                    if pending_sep {
+                        return Err("two context separators in a row".into());
+                    }
+                    pending_sep = true;
+                    continue;
+                }
+                let end = l.iter().position(|&c| c == b':' || c == b'-').unwrap_or(l.len());
+                // paths contain no ':' and no '-' in this corpus
+                let p = l[..end].to_vec();
+                if cur_path.as_ref() != Some(&p) {
+                    if cur_path.is_some() && !pending_sep {
+                        return Err(format!("no separator between the results of two files (before {})", show(&p)));
+                    }
+                    if !seen.insert(p.clone()) {
+                        return Err(format!("results of {} are not contiguous", show(&p)));
+                    }
+                    cur_path = Some(p);
+                    v.push(vec![]);
+                } else if pending_sep {
+                    v.last_mut().unwrap().extend_from_slice(b"--\n");
+                }
+                pending_sep = false;
+                let b = v.last_mut().unwrap();
+                b.extend_from_slice(l);
+                b.push(b'\n');
             }
             Ok(v)
         }
